@@ -102,6 +102,14 @@ Theorem C04_heap_array_large_enough : forall es bs,
 Proof. exact heap_array_cells_ge. Qed.
 Print Assumptions C04_heap_array_large_enough.
 
+(* every well-formed path into a dynamic array stays inside the segment allocarr creates *)
+Theorem C04_heap_array_paths_in_segment : forall env bs e p o k es,
+  denotes env (TArray bs e) p o k -> wf_env env -> wf_ty (TArray bs e) ->
+  type_size env e = Some es -> 1 <= es -> bs <> [] ->
+  0 <= o < header_size bs + heap_array_cells es bs.
+Proof. exact heap_array_paths_in_segment. Qed.
+Print Assumptions C04_heap_array_paths_in_segment.
+
 (* field chains are addressed by get_dotted_index, elements of arrays of records
    by arridx followed by get_dotted_index *)
 Theorem C04_field_chain_dotted : forall env t chain o k,
